@@ -37,9 +37,15 @@ def strip_comments(text):
     return "\n".join(out)
 
 
+def B(x):
+    return T(x).encode("utf-8", "surrogatepass")
+
+
 def documented_order_violation(m, text):
     """independent of the Coq model: condition parameters are written in byte order of their NAMES; in a non-modular model
-    so are the relations of a type and the conditions (the documented order). Returns a description or None."""
+    so are the relations of a type and the conditions; in a modular model (a type definition carries a module) types,
+    relations and conditions are ordered by (module, file, name) with unattributed items first (the documented order).
+    Returns a description or None."""
     import re
     for line in text.split("\n"):
         mm = re.match(r"^condition ([^(]*)\((.*)\) \{", line)
@@ -47,26 +53,63 @@ def documented_order_violation(m, text):
             names = [p.split(":")[0].strip().encode() for p in mm.group(2).split(", ")]
             if names != sorted(names):
                 return "the parameters of condition %s are written as %s, not in the order of their names" % (mm.group(1), [n.decode() for n in names])
-    modular = any(t[2] and t[2][0][1] for t in m[1]) or any(c[3] for _, c in m[2])
-    if modular:
-        return None
+    # what the text holds
     cur = None
+    types = []
     rels = {}
     conds = []
     for line in text.split("\n"):
         line = line.split(" #")[0]
         if line.startswith("type "):
             cur = line[5:]
+            types.append(cur.encode())
             rels[cur] = []
         elif line.startswith("    define ") and cur is not None:
             rels[cur].append(line[11:].split(":")[0].encode())
         elif line.startswith("condition "):
             conds.append(line[10:].split("(")[0].encode())
-    for t, rs in rels.items():
-        if rs != sorted(rs):
-            return "the relations of type %s are written as %s, not in the order of their names" % (t, [r.decode() for r in rs])
-    if conds != sorted(conds):
-        return "the conditions are written as %s, not in the order of their names" % [c.decode() for c in conds]
+
+    # the documented key: unattributed items first (by name), then by module, file, name
+    def key(name, module, file):
+        return (0, name) if not module else (1, module, file, name)
+
+    def tmeta(t):
+        md = t[2][0] if t[2] else [[], [], []]
+        return B(md[1]), (B(md[2][0]) if md[2] else b"")
+
+    modular = any(tmeta(t)[0] for t in m[1])
+    tnames = [B(t[0]) for t in m[1]]
+    if len(set(tnames)) != len(tnames) or len(set(B(k) for k, _ in m[2])) != len(m[2]):
+        return None
+    if modular:
+        want = [n for _, n in sorted((key(B(t[0]), *tmeta(t)), B(t[0])) for t in m[1])]
+        if types != want:
+            return "the types of a modular model are written as %s, not by (module, file, name) with unattributed ones first: %s" % (
+                [x.decode("utf-8", "replace") for x in types], [x.decode("utf-8", "replace") for x in want])
+    for t in m[1]:
+        tn = B(t[0]).decode("utf-8", "replace")
+        names = [B(r) for r, _ in t[1]]
+        if len(set(names)) != len(names) or tn not in rels:
+            continue
+        if modular:
+            metas = {B(rn): rm for rn, rm in (t[2][0][0] if t[2] else [])}
+            def rkey(n):
+                rm = metas.get(n)
+                return key(n, B(rm[1]) if rm else b"", (B(rm[2][0]) if rm and rm[2] else b""))
+            want = sorted(names, key=rkey)
+        else:
+            want = sorted(names)
+        if rels[tn] != want:
+            return "the relations of type %s are written as %s, not in the documented order %s" % (
+                tn, [r.decode("utf-8", "replace") for r in rels[tn]], [r.decode("utf-8", "replace") for r in want])
+    def ckey(kc):
+        k, c = kc
+        cm = c[3][0] if c[3] else None
+        return key(B(k), B(cm[0]) if cm else b"", (B(cm[1][0]) if cm and len(cm) > 1 and cm[1] else b""))
+    want = [B(k) for k, _ in sorted(m[2], key=ckey)]
+    written = [B(c[0]) for k, c in sorted(m[2], key=ckey)]   # a condition is written under its inner name
+    if conds != written and conds != want:
+        return "the conditions are written as %s, not in the documented order %s" % ([c.decode("utf-8", "replace") for c in conds], [c.decode("utf-8", "replace") for c in want])
     return None
 
 
